@@ -248,6 +248,14 @@ def pure1 (toks : List String) : Option String :=
             pure (⟨← i.toNat?, ← decOptInt a, ← decBool u, ← decBool o, ← decBool f⟩ : TNode)
         | _ => none) nodes
       pure (match transportPick (← decBool loc) ns with | none => "-" | some i => toString i)
+  | ["tgd", factor, size, loc, nodes] => do
+      -- nodes: id:avail|-:underMin:overMax:bavail|-:reserved
+      let ns ← decRecs (fun l => match l with
+        | [i, a, u, o, b, r] => do
+            pure (⟨← i.toNat?, ← decOptInt a, ← decBool u, ← decBool o, ← decOptInt b, ← decInt r⟩ : TGNode)
+        | _ => none) nodes
+      let (p, c, ns') := tgDispatch (← factor.toNat?) (← size.toNat?) (← decBool loc) ns
+      pure s!"{match p with | none => "-" | some i => toString i} {encBool c} {",".intercalate (ns'.map (fun n => toString n.reserved))}"
   | ["hsmrelease", headroom, avail, copies] => do
       pure (encNats (releaseFiles (← decInt headroom) (← decOptInt avail) (← decRecs decRCopy copies)))
   | ["hsmrefresh", rd, st] => do
